@@ -309,6 +309,15 @@ class P2PConnection:
                 telegram,
             )
             return
+        if not isinstance(telegram.tpci, TDataConnected):
+            # only numbered data can answer a request - other TPCIs carry no
+            # sequence number of their own (the class default would match 0)
+            logger.warning(
+                "Received unexpected point-to-point telegram for %s: %s",
+                self.address,
+                telegram,
+            )
+            return
         if telegram.tpci.sequence_number != self._expected_sequence_number:
             logger.warning(
                 "Received unexpected sequence number: %s (expected: %s)",
